@@ -67,7 +67,10 @@ func ruleCniAddDel(c *Ctx, rule string) {
 					return
 				}
 				n++
-				fromAdd := dependsOn(mu.Value, func(x ssa.Value) bool { cl, i := callOf(x); return cl != nil && ssa.Instruction(cl) == ssa.Instruction(add[0].(*ssa.Call)) && i == 0 })
+				fromAdd := dependsOn(mu.Value, func(x ssa.Value) bool {
+					cl, i := callOf(x)
+					return cl != nil && ssa.Instruction(cl) == ssa.Instruction(add[0].(*ssa.Call)) && i == 0
+				})
 				c.ob(rule, fn, "prevResult given to a delegate is the previous delegate's result", mu, fromAdd && precedes(fn, []ssa.Instruction{mu}, add[0]) == false, "Conf[\"prevResult\"] derives from DelegateAdd's result of the previous iteration")
 			})
 			_ = n
@@ -240,7 +243,12 @@ func ruleNetworkSelection(c *Ctx, rule string) {
 				case pathEndsWith(arg, "ENIIPNetwork"):
 					ok := guardedBy(fn, g, wantENI) && guardedBy(fn, g, eniSet) && !reachFromEntry(fn, newCut().edge(noAnn...).edge(nilAnn...)).has(g)
 					c.ob(rule, fn, "ENI network only without annotation, for pods requesting an ENI ip, when configured", g, ok, "reachable only through (no annotation) && WantENIIP(pod) && ENIIPNetwork != \"\"")
-				case dependsOn(arg, func(x ssa.Value) bool { return x == parse[0].Value() || (func() bool { cl, _ := callOf(x); return cl != nil && ssa.Instruction(cl) == ssa.Instruction(parse[0].(*ssa.Call)) })() }):
+				case dependsOn(arg, func(x ssa.Value) bool {
+					return x == parse[0].Value() || (func() bool {
+						cl, _ := callOf(x)
+						return cl != nil && ssa.Instruction(cl) == ssa.Instruction(parse[0].(*ssa.Call))
+					})()
+				}):
 					var neg []edge
 					for _, e := range append(append([]edge{}, noAnn...), nilAnn...) {
 						neg = append(neg, e)
@@ -324,4 +332,92 @@ func ruleNetworkSelection(c *Ctx, rule string) {
 		}
 		c.ob(rule, fn, "later networks get the interface their annotation names, else eth<i>", nil, ok2 && len(calls(fn, "fmt.Sprintf")) == 1, "netIf != \"\" returns netIf; otherwise Sprintf(\"eth%d\", idx)")
 	}
+}
+
+// the saved network list of a container is deleted only by consuming it (CmdDel); nobody else removes the state file
+func ruleStateFileOwnership(c *Ctx, rule string) {
+	n := 0
+	for _, fn := range c.SrcFns {
+		if fn.Pkg.Pkg.Path() != modPath+cniutilPkg {
+			continue
+		}
+		for _, rm := range calls(fn, "os.Remove", "os.RemoveAll") {
+			n++
+			root := fn
+			for root.Parent() != nil {
+				root = root.Parent()
+			}
+			c.ob(rule, fn, "the network state file is removed only by consumeNetworkInfo", rm, root.Name() == "consumeNetworkInfo", "os.Remove in package cniutil appears only in consumeNetworkInfo: the file re-saved with the failed DELs must survive until the next DEL consumes it")
+		}
+	}
+	if n == 0 {
+		c.undecided(rule, nil, "os.Remove in cniutil", nil, "no removal of the state file found")
+	}
+	// CmdAdd's only state operations are the initial save and the rollback CmdDel
+	if fn := c.MustFn(rule, cniutilPkg, "CmdAdd"); fn != nil {
+		la := c.locks()
+		bad := ""
+		for in, gs := range la.info[fn].callees {
+			for _, g := range gs {
+				if g.Pkg == fn.Pkg && g.Name() != "saveNetworkInfo" && g.Name() != "CmdDel" && g.Name() != "DelegateAdd" && g.Name() != "BuildCNIArgs" {
+					// any other same-package helper must not reach os.Remove / WriteFile
+					if reachesCallee(la, g, map[*ssa.Function]bool{}, "os.Remove", "os.RemoveAll", "io/ioutil.WriteFile", "os.WriteFile") {
+						bad = fnName(g) + " at " + c.instrPos(in)
+					}
+				}
+			}
+		}
+		c.ob(rule, fn, "CmdAdd touches the state file only through saveNetworkInfo and the rollback CmdDel", nil, bad == "", "no other helper called from CmdAdd reaches os.Remove / WriteFile "+bad)
+	}
+}
+
+func reachesCallee(la *lockAnalysis, f *ssa.Function, seen map[*ssa.Function]bool, pats ...string) bool {
+	if seen[f] {
+		return false
+	}
+	seen[f] = true
+	if len(callsDeep(f, pats...)) > 0 {
+		return true
+	}
+	if fi := la.info[f]; fi != nil {
+		for _, gs := range fi.callees {
+			for _, g := range gs {
+				if reachesCallee(la, g, seen, pats...) {
+					return true
+				}
+			}
+		}
+	}
+	return false
+}
+
+// the JSON form of the networks annotation is used as decoded: no field of a decoded entry is rewritten
+func ruleAnnotationJSONUntouched(c *Ctx, rule string) {
+	fn := c.MustFn(rule, "pkg/api/k8s", "ParsePodNetworkAnnotation")
+	if fn == nil {
+		return
+	}
+	um := calls(fn, "encoding/json.Unmarshal")
+	if len(um) != 1 {
+		c.undecided(rule, fn, "json.Unmarshal", nil, "expected one call")
+		return
+	}
+	r := c.reachAfter(um[0], nil)
+	bad := false
+	n := 0
+	allInstrs(fn, func(in ssa.Instruction) {
+		st, ok := in.(*ssa.Store)
+		if !ok {
+			return
+		}
+		fa, ok := st.Addr.(*ssa.FieldAddr)
+		if !ok || typeNameOf(fa.X.Type()) != "NetworkSelectionElement" {
+			return
+		}
+		n++
+		if r.has(st) {
+			bad = true
+		}
+	})
+	c.ob(rule, fn, "entries of a JSON-form annotation are used as decoded", um[0], !bad && n > 0, fmt.Sprintf("%d stores to NetworkSelectionElement fields (comma form), none reachable after json.Unmarshal: name and interface of a JSON entry are what the pod wrote", n))
 }
